@@ -22,6 +22,7 @@ import (
 	"github.com/cedar-policy/cedar-go/verif/c10"
 	"github.com/cedar-policy/cedar-go/verif/c16"
 	"github.com/cedar-policy/cedar-go/verif/c17"
+	"github.com/cedar-policy/cedar-go/verif/c15"
 	"github.com/cedar-policy/cedar-go/verif/c20"
 	"github.com/cedar-policy/cedar-go/verif/core"
 )
@@ -43,6 +44,7 @@ var registry = map[string]func() *core.Check{
 	"C10": c10.Check,
 	"C16": c16.Check,
 	"C17": c17.Check,
+	"C15": c15.Check,
 	"C20": c20.Check,
 }
 
